@@ -392,6 +392,10 @@ type PathQuery struct {
 	ExitIsTarget bool
 	// EdgeOK, if set, filters CFG edges (e.g. to ignore back edges or infeasible branches).
 	EdgeOK func(from, to *cfg.Block) bool
+	// OnBlock, if set, is consulted when a block is entered (before its nodes):
+	// used for select communications, which take effect at the start of their
+	// clause body (the body may be empty).
+	OnBlock func(b *cfg.Block) (target, barrier bool)
 }
 
 type PathResult struct {
@@ -469,6 +473,15 @@ func (c *CFG) FindPath(q PathQuery) PathResult {
 	for len(queue) > 0 {
 		b := queue[0]
 		queue = queue[1:]
+		if q.OnBlock != nil {
+			tg, br := q.OnBlock(b)
+			if tg {
+				return PathResult{Found: true, Path: mkPath(b, 0)}
+			}
+			if br {
+				continue
+			}
+		}
 		hit, barrier := scan(b, 0)
 		if hit >= 0 {
 			return PathResult{Found: true, Path: mkPath(b, hit)}
